@@ -204,6 +204,139 @@ THMS = [
     thm("sound_171", "r171_in_single", [("x", A), ("y", A)], []),
 ]
 TAIL = '''
+
+/-! ### FURB192 on a list of ints: `sorted(x)[0]` is `min(x)` (both raise on the empty list) -/
+
+/-- insertion into a sorted list of ints, as `insSorted` does it -/
+def insI (a : Int) : List Int → List Int
+  | [] => [a]
+  | b :: l => if b < a then b :: insI a l else a :: b :: l
+def isort : List Int → List Int
+  | [] => []
+  | a :: l => insI a (isort l)
+/-- `min` as `minOfAux` computes it (left fold, first minimal wins) -/
+def minL (m : Int) : List Int → Int
+  | [] => m
+  | x :: xs => minL (if x < m then x else m) xs
+
+theorem sLt_int (a b : Int) : sLt (.int a) (.int b) = .ok (decide (a < b)) := by
+  simp [sLt, Scalar.num?]
+
+theorem insSorted_ints (a : Int) (l : List Int) :
+    insSorted (.int a) (l.map Scalar.int) = .ok ((insI a l).map Scalar.int) := by
+  induction l with
+  | nil => rfl
+  | cons b l ih =>
+    simp only [List.map_cons, insSorted, sLt_int, insI, Bind.bind, Except.bind]
+    by_cases h : b < a <;> simp [h, ih]
+
+theorem pySorted_ints (l : List Int) : pySorted (l.map Scalar.int) = .ok ((isort l).map Scalar.int) := by
+  induction l with
+  | nil => rfl
+  | cons a l ih => simp [pySorted, ih, isort, insSorted_ints, Bind.bind, Except.bind]
+
+theorem minOfAux_ints (m : Int) (l : List Int) : minOfAux (.int m) (l.map Scalar.int) = .ok (.int (minL m l)) := by
+  induction l generalizing m with
+  | nil => rfl
+  | cons x xs ih =>
+    simp only [List.map_cons, minOfAux, sLt_int, Bind.bind, Except.bind, minL]
+    by_cases h : x < m <;> simp [h, ih]
+
+theorem minL_spec (m : Int) (l : List Int) : minL m l ∈ m :: l ∧ ∀ x ∈ m :: l, minL m l ≤ x := by
+  induction l generalizing m with
+  | nil => simp [minL]
+  | cons y ys ih =>
+    simp only [minL]
+    have := ih (if y < m then y else m)
+    constructor
+    · rcases List.mem_cons.mp this.1 with h | h
+      · rw [h]; by_cases hy : y < m <;> simp [hy]
+      · exact List.mem_cons_of_mem _ (List.mem_cons_of_mem _ h)
+    · intro x hx
+      have hm : minL (if y < m then y else m) ys ≤ (if y < m then y else m) := this.2 _ (by simp)
+      rcases List.mem_cons.mp hx with rfl | hx
+      · by_cases hy : y < x <;> simp [hy] at hm ⊢ <;> omega
+      · rcases List.mem_cons.mp hx with rfl | hx
+        · by_cases hy : x < m <;> simp [hy] at hm ⊢ <;> omega
+        · exact this.2 x (List.mem_cons_of_mem _ hx)
+
+theorem mem_insI (a x : Int) (l : List Int) : x ∈ insI a l ↔ x = a ∨ x ∈ l := by
+  induction l with
+  | nil => simp [insI]
+  | cons b l ih =>
+    simp only [insI]
+    by_cases h : b < a <;> simp [h, ih] <;> constructor <;> (intro h'; rcases h' with h' | h' | h' <;> simp [h'])
+
+theorem mem_isort (x : Int) (l : List Int) : x ∈ isort l ↔ x ∈ l := by
+  induction l with
+  | nil => simp [isort]
+  | cons a l ih => simp [isort, mem_insI, ih]
+
+def SortedI : List Int → Prop
+  | [] => True
+  | a :: l => (∀ b ∈ l, a ≤ b) ∧ SortedI l
+
+theorem sorted_insI (a : Int) (l : List Int) (h : SortedI l) : SortedI (insI a l) := by
+  induction l with
+  | nil => simp [insI, SortedI]
+  | cons b l ih =>
+    simp only [insI]
+    by_cases hb : b < a
+    · simp only [hb, ↓reduceIte, SortedI]
+      refine ⟨?_, ih h.2⟩
+      intro x hx
+      rcases (mem_insI a x l).mp hx with rfl | hx
+      · omega
+      · exact h.1 x hx
+    · simp only [hb, ↓reduceIte, SortedI]
+      refine ⟨?_, h⟩
+      intro x hx
+      rcases List.mem_cons.mp hx with rfl | hx
+      · omega
+      · have := h.1 x hx; omega
+
+theorem sorted_isort (l : List Int) : SortedI (isort l) := by
+  induction l with
+  | nil => trivial
+  | cons a l ih => exact sorted_insI a _ ih
+
+/-- the head of the sorted list is the minimum that `min()` returns -/
+theorem head_isort (a : Int) (l : List Int) : (isort (a :: l)).head? = some (minL a l) := by
+  have hs := sorted_isort (a :: l)
+  have hne : isort (a :: l) ≠ [] := by
+    intro h; have := (mem_isort a (a :: l)).mpr (by simp); rw [h] at this; cases this
+  cases hl : isort (a :: l) with
+  | nil => exact absurd hl hne
+  | cons h t =>
+    rw [hl] at hs
+    have hmem : h ∈ a :: l := (mem_isort h (a :: l)).mp (by rw [hl]; simp)
+    have hmin := minL_spec a l
+    have h1 : minL a l ≤ h := hmin.2 h hmem
+    have h2 : h ≤ minL a l := by
+      have : minL a l ∈ isort (a :: l) := (mem_isort _ _).mpr hmin.1
+      rw [hl] at this
+      rcases List.mem_cons.mp this with h' | h'
+      · omega
+      · exact hs.1 _ h'
+    simp; omega
+
+
+/-- **FURB192** for every list of ints of any length: same value, and both raise when it is empty -/
+theorem sound_192_ints (σ : Env) (l : List Int) (hx : σ "x" = some (.list (l.map Scalar.int))) :
+    observe r192_sorted_0_ints (eval σ r192_sorted_0_ints.old) = observe r192_sorted_0_ints (eval σ r192_sorted_0_ints.new) := by
+  simp only [r192_sorted_0_ints, observe, eval, x, hx, Bind.bind, Except.bind, pySorted_ints]
+  cases l with
+  | nil => simp [isort, minOf, outcome]
+  | cons a t =>
+    have hh := head_isort a t
+    simp only [List.map_cons, minOf, minOfAux_ints]
+    cases hs : isort (a :: t) with
+    | nil => rw [hs] at hh; simp at hh
+    | cons h u =>
+      rw [hs] at hh
+      simp only [List.head?_cons, Option.some.injEq] at hh
+      simp [hh, outcome]
+
 /-! ### refutations: the same rewrite on another part of the domain its check accepts -/
 
 def envOf (l : List (String × Val)) : Env := fun n => (l.find? (·.1 == n)).map (·.2)
